@@ -73,4 +73,40 @@ def introsEval (intros : List Thm) (body : Thm) : Option Thm :=
 def introsScript (intros : List Thm) : List StepAx :=
   intrSteps intros.length (intros.map (·.prop)).reverse
 
+/-! ### `apply_theorem` (logic/logic.py `apply_theorem_macro`) for a FIRST-ORDER, monomorphic theorem
+with a non-empty instantiation that leaves no schematic variable
+
+    th = get_theorem(name);  As, C = th.prop.strip_implies();  assert len(prevs) <= len(As)
+    inst = first_order_match_list(As[:len(prevs)], [prev.prop ...])      -- the matcher (C09): an argument here
+    eval:    As, C = th.prop.subst(inst).strip_implies()
+             Thm(Implies(*(As[len(prevs):] + [C])), th.hyps, *(prev.hyps ...))
+    expand:  ProofTerm.theorem(name).substitution(inst).implies_elim(*pts)
+
+(no type instantiation: the `subst_type` line is not emitted; no remaining schematic variable: no
+`forall_intr` lines; the theorem is first-order: no `beta_norm` conversion). -/
+
+def applyTheoremEval (axs : List (String × Thm)) (name : String) (inst : Term.Inst) (prevs : List Thm) :
+    Option Thm :=
+  match axs.lookup name with
+  | none => none
+  | some ax =>
+    if prevs.length ≤ (stripImplies ax.prop).1.length then
+      match Term.subst inst ax.prop with
+      | .ok (p', _) =>
+        some (Thm.mk' (mkImpliesList ((stripImplies p').1.drop prevs.length) (stripImplies p').2)
+          (ax.hyps :: prevs.map (·.hyps)))
+      | .error _ => none
+    else none
+
+/-- `implies_elim` lines: line `i` is the running theorem, `j` the position of the next premise -/
+def elimSteps : Nat → Nat → Nat → List StepAx
+  | _, _, 0 => []
+  | i, j, k + 1 => ⟨"implies_elim", .prim .none, [i, j], none⟩ :: elimSteps (i + 1) (j + 1) k
+
+/-- expansion: the `n` premises sit at positions `0 .. n-1`; line `n` copies the theorem, line
+`n + 1` instantiates it, lines `n + 2 ..` discharge the premises in order -/
+def applyTheoremScript (name : String) (inst : Term.Inst) (n : Nat) : List StepAx :=
+  ⟨"theorem", .name name, [], none⟩ :: ⟨"substitution", .prim (.inst inst), [n], none⟩ ::
+    elimSteps (n + 1) 0 n
+
 end Holpy.C04.Macro
